@@ -205,8 +205,15 @@ func ruleFillRuleMirror(rule string, minSwitches int) func(*Ctx) {
 					if !ok || sw.Tag == nil {
 						return true
 					}
-					sel, ok := sw.Tag.(*ast.SelectorExpr)
-					if !ok || sel.Sel.Name != "fillRule" {
+					// `switch x.fillRule` or, where the fill rule is passed as an argument, `switch fillRule`
+					isFR := false
+					switch tg := sw.Tag.(type) {
+					case *ast.SelectorExpr:
+						isFR = tg.Sel.Name == "fillRule"
+					case *ast.Ident:
+						isFR = tg.Name == "fillRule"
+					}
+					if !isFR {
 						return true
 					}
 					k++
